@@ -5,6 +5,7 @@ import logging
 import threading
 
 from ..debug import NameRepr
+from ._verif import point
 
 
 class BaseRunner(metaclass=ABCMeta):
@@ -64,6 +65,7 @@ class BaseRunner(metaclass=ABCMeta):
         """
         self._logger.info("runner started: %s", self)
         self._stopped.clear()
+        point("run.started", flavour=self.flavour.__name__)
         try:
             await self.manage_payloads()
         except asyncio.CancelledError:
@@ -76,6 +78,7 @@ class BaseRunner(metaclass=ABCMeta):
             self._logger.info("runner stopped: %s", self)
         finally:
             self._stopped.set()
+            point("run.ended", flavour=self.flavour.__name__)
 
     @abstractmethod
     async def manage_payloads(self):
